@@ -1,1 +1,3 @@
 import ZCV.Props.C16
+open ZCV.Props.C16
+#print axioms C16_stop_appends_own_entries
